@@ -131,6 +131,7 @@ def plan_c04(tier, seed):
         add("g7", 1, 1, 1); add("g7", 1, 1, 2); add("g7", 2, 1, 1)
         add("g8", 1, 1, 1); add("g8", 2, 1, 2)
         add("g8b", 2, 1, 1)
+        add("g8g", 2, 1, 1); add("g8g", 3, 1, 2)
         add("g6", 1, 1, 1)
         add("g9", 1, 1, 2)
         add("g14a", 1, 1, 1)
@@ -141,7 +142,7 @@ def plan_c04(tier, seed):
         add("g8", 3, 1, 2, "func", extra="emptyparam-setout", id="C04-g8-i3-m2-empty-param-in-path")
         add("g6b", 2, 1, 2, pre={"in1.txt.p": "p.out(in=in1.txt;)"}, id="C04-g6b-i2-m2-pre1")
         add("g6b", 3, 1, 3, pre={"in1.txt.p": "p.out(in=in1.txt;)", "in2.txt.p": "p.out(in=in2.txt;)"}, id="C04-g6b-i3-m3-pre12")
-        for g in ("g2", "g3", "g4", "g5", "g5b", "g6", "g6b", "g7", "g8", "g8b", "g9", "g12", "g14", "g14a"):
+        for g in ("g2", "g3", "g4", "g5", "g5b", "g6", "g6b", "g7", "g8", "g8b", "g8g", "g9", "g12", "g14", "g14a"):
             for i in (0, 1, 2, 3):
                 for b in (1, 2):
                     for m in (1, 2, 3):
@@ -213,7 +214,7 @@ def plan_c05(tier, seed):
         add("g1", 0, 1, 1)
         add("g10", 1, 1, 2); add("g10", 1, 1, 1)
         add("g11", 1, 1, 1); add("g11", 2, 1, 2)
-        add("g4", 1, 1, 1); add("g5", 1, 1, 1); add("g7", 1, 1, 1); add("g8", 1, 1, 1); add("g9", 1, 1, 2)
+        add("g4", 1, 1, 1); add("g5", 1, 1, 1); add("g7", 1, 1, 1); add("g8", 1, 1, 1); add("g9", 1, 1, 2); add("g8g", 2, 1, 1); add("g8g", 3, 1, 2)
         add("g12", 3, 1, 1)
         add("g10b", 1, 1, 2); add("g10b", 3, 1, 1); add("g10b", 6, 1, 2, mode="delay", delay=1, id="C05-g10b-i6-b1-m2-delay1")  # stream well beyond the buffers: the sink must run concurrently with the driver
         # slot configurations: multi-core tasks competing for the slots (partial acquisition)
@@ -221,7 +222,7 @@ def plan_c05(tier, seed):
         add("g3", 1, 1, 1, runto=["p"], id="C05-g3-runto-p")
         add("g11", 1, 1, 1, runto=["last"], id="C05-g11-runto-last")
     else:
-        for g in ("g1", "g2", "g3", "g4", "g5", "g6", "g7", "g8", "g9", "g10", "g10b", "g11", "g12"):
+        for g in ("g1", "g2", "g3", "g4", "g5", "g6", "g7", "g8", "g8g", "g9", "g10", "g10b", "g11", "g12"):
             for i in (0, 1, 2, 3):
                 for b in (1, 2):
                     for m in (1, 2):
@@ -767,9 +768,13 @@ def plan_c03(tier, seed):
             j["snap_dir"] = os.path.join(ctx["scratch"], "snaps", j["id"])
         return jobs
     o2 = ["nohang", "c03", "c01"]
-    stages = [stage1, recovery_stage("C03", tier, "s", o2, crash=True), recovery_stage("C03", tier, "t", o2, crash=False)]
+    def stage_fifo(ctx, prev):
+        # a FIFO left behind by a killed streaming run (real mkfifo, see C17): the re-run stops, it does not adopt it
+        return [{"id": f"C03-leftover-fifo-s{size}", "prop": "C03", "kind": "stream", "mode": "delay", "delay": 1, "budget": budget(tier, 20, 120), "oracles": [], "events_dep": False, "force_all": -1,
+                 "args": {"n": "1", "size": str(size), "max": "2", "leftover_fifo": "1", "only_leftover": "1"}} for size in ((1,) if tier == "quick" else (1, 65537))]
+    stages = [stage1, recovery_stage("C03", tier, "s", o2, crash=True), recovery_stage("C03", tier, "t", o2, crash=False), stage_fifo]
     return {"level": "fault_enumeration", "stages": stages,
-            "rule": "every DISTINCT disk state after every FS mutation of every explored schedule (crash points) of the crash scenarios; from each: R1 re-run as is (must refuse with exit != 0 when a temp dir / FIFO is left, else converge) and R2 remove leftovers + re-run (must complete with exactly the reference files and contents, no re-execution and no modification of tasks finalized before the crash, nothing left); R2 runs are themselves explored with crash points and recovered from once more (crash during recovery, depth 2); every recovery run explored over all its schedules (DPOR closed)",
+            "rule": "every DISTINCT disk state after every FS mutation of every explored schedule (crash points) of the crash scenarios; from each: R1 re-run as is (must refuse with exit != 0 when a temp dir / FIFO is left, else converge) and R2 remove leftovers + re-run (must complete with exactly the reference files and contents, no re-execution and no modification of tasks finalized before the crash, nothing left); R2 runs are themselves explored with crash points and recovered from once more (crash during recovery, depth 2); every recovery run explored over all its schedules (DPOR closed); + a named pipe left at <path>.fifo by a killed streaming run: the re-run stops",
             "assumptions": BASE_ASSUMPTIONS + ["after a kill only the disk survives, so recovery is a function of the disk digest (paths, types, content hashes; audit files classified empty/partial/complete)", "kill = process kill, no power loss"],
             "distinct_nontrivial_fn": lambda rs: sum((r.get("distinct_crash_states") or 0) for r in rs)}
 
